@@ -79,6 +79,25 @@ def _update_parameters_and_initial_conditions[T](
     return fn(model)
 
 
+def _require_unique_index(to_scan: pd.DataFrame) -> None:
+    """Refuse scan tables whose index labels are not pairwise different.
+
+    Time-course and protocol scans key their results by the row labels of the
+    table, so rows with equal labels would silently replace each other.
+
+    Args:
+        to_scan: DataFrame containing the values to scan.
+
+    """
+    if not to_scan.index.is_unique:
+        duplicated = to_scan.index[to_scan.index.duplicated()].unique().tolist()
+        msg = (
+            f"Scan table has duplicate index labels {duplicated}, but results are "
+            "keyed by label. Use `to_scan.reset_index(drop=True)` to number the rows."
+        )
+        raise ValueError(msg)
+
+
 ###############################################################################
 # Workers
 ###############################################################################
@@ -593,6 +612,8 @@ def time_course(
 
 
     """
+    _require_unique_index(to_scan)
+
     # We update the initial conditions separately here, because `to_scan` might also
     # contain initial conditions.
     if y0 is not None:
@@ -742,6 +763,8 @@ def protocol(
         TimeCourseByPars: Protocol series results for each parameter set.
 
     """
+    _require_unique_index(to_scan)
+
     # We update the initial conditions separately here, because `to_scan` might also
     # contain initial conditions.
     if y0 is not None:
@@ -811,6 +834,8 @@ def protocol_time_course(
         TimeCourseByPars: Protocol series results for each parameter set.
 
     """
+    _require_unique_index(to_scan)
+
     # We update the initial conditions separately here, because `to_scan` might also
     # contain initial conditions.
     if y0 is not None:
